@@ -12,10 +12,13 @@ controller wrote in that step, decoded with harness/rawbytes.py - plus the compo
          written is not a well-formed batch (mask != NO_FLOOD|NO_FWD, wrong hw_addr, no features request, ...)
   Deliver -> cfg [[p, bits], ...]      NO_FLOOD/NO_FWD bits on the real switch after it processed the bytes
   Advance -> tick                      did the component's timer fire at the end of this time unit
+  Disconnect                           (marker only, see step())
 
 Nothing is judged here.
 """
 import random
+
+from engine.core import Machinery
 
 DPIDS = [[1, 2, 3, 4, 5, 6],
          [0x10, 0x7fffffff, 0x100000000, 0x0001000000000000, 0x8000000000000000, 0xffffffffffffffff],
@@ -55,6 +58,7 @@ class Adapter(object):
     self.net = xn.FNet(self.dp, {self.dp[int(s) - 1]: [self.pn[p - 1] for p in ps] for s, ps in ports.items()},
                        mode=mode, cycle=4.0 * W * self.unit, real_discovery=real, link_timeout=link_timeout)
     self.stash = None
+    self.dpend = None
 
   # ------------------------------------------------------------ maps
   def d(self, s):
@@ -136,9 +140,20 @@ class Adapter(object):
       if o["sent"] or o["err"]:
         return dict(cfg=[], unexpected=o)
       return dict(cfg=sorted([self.port_of.get(p, 0), c] for p, c in net.switch_cfg(dd).items()))
+    if a == "Disconnect":
+      # Connection.disconnect() removes the session from the nexus and raises ConnectionDown in one go; the
+      # adapter performs both at the ConnDown step (the exported behaviours have nothing in between; histories
+      # in which discovery's LinkEvents fall in between are recorded by harness/x10_e2e.py)
+      self.dpend = args["s"]
+      return self.collect()
+    if self.dpend is not None and a != "ConnDown":
+      raise Machinery("x10 adapter: %s between Disconnect and ConnDown is not replayable" % a)
     if a == "ConnUp":
       net.switch_up(self.d(args["s"]), fresh=bool(args["fresh"]))
     elif a == "ConnDown":
+      if self.dpend != args["s"]:
+        raise Machinery("x10 adapter: ConnDown without Disconnect")
+      self.dpend = None
       net.switch_down(self.d(args["s"]))
     elif a == "LinkEv":
       l = args["l"]
